@@ -75,7 +75,7 @@ def tlc_jobs(ctx, acc):
     for dev, prop, extra in DEVS:
         mc("mc-dev-" + dev, [prop], timeout=600, Dev='"%s"' % dev, **extra)
     if th:
-        mc("mc-ideal-3groups", INVS, timeout=900, CTtl=2, Groups='{"g1", "g2", "g3"}')
+        mc("mc-ideal-3groups", INVS, timeout=900, Groups='{"g1", "g2", "g3"}')
         mc("mc-asfound-send", ["TypeOK", "P_X04_a", "P_X04_d", "P_X04_e", "P_X04_f"], timeout=900, ResetOnClose=True, StaleDec=True, KeepEntries=True,
            Groups='{"g1"}', Parts="{0, 1}", Acts=ALL_ACTS, CLimT=1)
     node_tlc_jobs(ctx, jobs)
@@ -252,7 +252,7 @@ def obj_scenarios(ctx, pools):
     rng = random.Random(ctx.seed * 7919 + 4)
     th = ctx.thorough
     scns = obj_directed()
-    lim = {"gen-bfs-count": 50000 if th else 1500, "gen-bfs-all": 50000 if th else 1500, "gen-walks": 6000 if th else 350}
+    lim = {"gen-bfs-count": 50000 if th else 1500, "gen-bfs-all": 50000 if th else 1500, "gen-walks": 3000 if th else 350}
     exhaustive = {}
     for n in ("gen-bfs-count", "gen-bfs-all", "gen-walks"):
         pool = list(pools[n])
@@ -403,7 +403,7 @@ def validate_obj(ctx, runs, acc):
         jobs.append(("tv-obj-%d" % ci, path))
     viols, steps = [], []
     cfg = obj_trace_cfg()
-    with cf.ThreadPoolExecutor(max_workers=4) as ex:
+    with cf.ThreadPoolExecutor(max_workers=5 if ctx.thorough else 2) as ex:
         for v, s, st in ex.map(lambda j: run_tv(ctx, "PartialTrace", cfg, j[0], j[1]), jobs):
             viols += v
             steps += s
@@ -807,7 +807,7 @@ def validate_node(ctx, runs, acc):
         if len(v) != len(res.printed_raw("VIOL")) or len(s) != len(res.printed_raw("NSTEP")):
             raise vlib.Inconclusive("unparsable VIOL/NSTEP output in %s/tlc.out" % res.dir)
         return v, s, d, res.distinct
-    with cf.ThreadPoolExecutor(max_workers=4) as ex:
+    with cf.ThreadPoolExecutor(max_workers=3 if ctx.thorough else 2) as ex:
         for v, s, d, st in ex.map(one, jobs):
             viols += v
             steps += s
